@@ -715,7 +715,7 @@ func (s *Stage) cleanStrays(minAge time.Duration) {
 			compExists := err == nil
 			var comp *sts.Partial
 			if compExists {
-				if comp, err = readLocalCompanion(path, relPath); err != nil {
+				if comp, err = readLocalCompanion(compPath, relPath); err != nil {
 					s.logError(err.Error())
 				}
 			}
@@ -727,7 +727,7 @@ func (s *Stage) cleanStrays(minAge time.Duration) {
 			fileHash := s.getFileHash(filePath)
 			if fileState > stateReceived {
 				delete = comp == nil || comp.Hash == fileHash
-				deleteCmp = compExists && fileState == stateLogged
+				deleteCmp = delete && compExists && fileState == stateLogged
 				s.logDebug("Stray partial cache info:", relPath, fileState, fileHash)
 			} else {
 				end := time.Now()
